@@ -194,3 +194,32 @@ def run(ck):
             ck.ob('C26.bound', 'C26.bound/%s#%d' % (q.split('::')[-1], i), not fails, f.loc(i),
                   '%s runs only past %s' % (f.text(i)[:60], lab), fails[0][3] if fails else None)
     ck.floor('C26.bound', 'prefix substr/erase operations on session buffers', nb, 5)
+
+    # ---- the protocol loop makes progress only by consuming input, and never feeds a closed session -------------------------------
+    from sa.callgraph import CallGraph as _CG
+    from sa.match import holds as _holds, const_value as _cv
+    pp_ = P.fn(R + 'process_protocol')
+    ck.touch(pp_)
+    sets_ = [s_ for l_, r_, s_ in assignments(pp_) if pp_.nodes[pp_.strip(l_)].get('k') == 'DeclRefExpr' and pp_.nodes[pp_.strip(l_)].get('n') == 'progress' and pp_.nodes[pp_.strip(r_)].get('cv') == '1']
+    idr = [i for i in pp_.walk() if pp_.nodes[i].get('callee') == R + 'handle_identity_ready']
+    idsets = [s_ for s_ in sets_ if any(pp_.is_in(s_, a) and pp_.is_in(c_, a) for c_ in idr for a in pp_.ancestors(c_) if pp_.nodes[a]['k'] == 'CompoundStmt' and pp_.nodes[pp_.parent(a) or 0]['k'] == 'IfStmt')]
+    kid = P.global_const('ephemeralnet::relay::(anonymous namespace)::kPeerIdBytes') if any(g.endswith('kPeerIdBytes') for g in P.globals) else 32
+
+    def enough(fact):
+        h = _holds(pp_, fact)
+        if not h:
+            return False
+        a_, rel, b_ = h
+        return rel == '>=' and (pp_.nodes[pp_.strip(a_)].get('callee') or '').endswith('::size') and _cv(pp_, b_) == kid
+    effects = [('progress=true', s_) for s_ in idsets] + [('handle_identity_ready', c_) for c_ in idr]
+    ck.floor('C26.loop', 'identity-stage progress sites in process_protocol', len(effects), 2)
+    fails_, _n = gate_check(pp_, effects, [('read_buffer.size() >= kPeerIdBytes', enough)])
+    ck.ob('C26.loop', 'C26.loop/identity-progress-needs-32-bytes', not fails_, pp_.loc(fails_[0][2]) if fails_ else pp_.loc(),
+          'while a session awaits the peer identity the loop reports progress only when the %d identity bytes are buffered (a shorter fragment must '
+          'leave the loop, not spin in it)' % kid, fails_[0][3] if fails_ else None)
+    G_ = _CG(P)
+    hl_reach = G_.reachable([R + 'handle_line'])
+    closes_ = R + 'close_session' in hl_reach
+    ck.ob('C26.loop', 'C26.loop/line-handlers-do-not-close', not closes_, P.fn(R + 'handle_line').loc(),
+          'no command handler reached from handle_line closes the session: process_protocol keeps feeding buffered lines to it afterwards'
+          + ('' if not closes_ else ' — path %s' % ' -> '.join(short(x) for x in (G_.path(R + 'handle_line', R + 'close_session') or []))))
